@@ -1,4 +1,5 @@
 import OhkamiModel.Drv.C03
+import OhkamiModel.Drv.C20
 /-! The one line-protocol driver: `driver <prop>` reads one JSON case per line on stdin, writes one JSON answer per line. -/
 open Lean
 
@@ -14,4 +15,5 @@ def main (args : List String) : IO UInt32 := do
   let stdin ← IO.getStdin
   match args with
   | ["C03"] => loop stdin DrvC03.runCase; return 0
+  | ["C20"] => loop stdin DrvC20.runCase; return 0
   | _ => IO.eprintln "usage: driver <property id>"; return 2
